@@ -1134,6 +1134,32 @@ def mon_c20_re(spec, run):
 MONITORS["C20re"] = mon_c20_re
 
 
+def mon_c17_two(spec, run):
+    """two checks of two receivers at the same time: the first one judged as usual on its own events; the second one's result must be its own
+    receiver's model name and zones (replies are fast on both)"""
+    tr = run.trace
+    own = [e for e in first_connection_only(tr) if e["th"] not in ("U7",) and not (e["th"] in ("R2", "S2"))]
+    # library threads are numbered in start order: whichever check starts its reader first owns R/S — judge by tags instead
+    bad = []
+    r1 = next((e for e in tr if e["k"] == "api_ret" and e["op"] == "connection_check"), None)
+    r2 = next((e for e in tr if e["k"] == "api_ret2"), None)
+    for name, r, dev, zones in (("first", r1, spec["device"], spec["zones"]), ("second", r2, spec["other_device"], spec["other_zones"])):
+        if r is None:
+            bad.append(("hang", f"the {name} connection_check() never returned"))
+            continue
+        if r["exc"] is not None:
+            bad.append(("raised", f"the {name} connection_check() raised {r['exc']} although its receiver answers at once"))
+            continue
+        if r["res"]["modelname"] != dev["model"]:
+            bad.append(("modelname", f"the {name} connection_check() reported model {r['res']['modelname']!r}; its receiver says {dev['model']!r} (another check ran at the same time against {spec['other_device']['model'] if name == 'first' else spec['device']['model']!r})"))
+        if sorted(r["res"]["zones"]) != sorted(zones):
+            bad.append(("zones", f"the {name} connection_check() reported zones {r['res']['zones']}; its receiver has {zones}"))
+    return bad
+
+
+MONITORS["C17two"] = mon_c17_two
+
+
 def _two(name):
     def mon(spec, run):
         return MONITORS[name](spec, _SubRun(run, first_connection_only(run.trace)))
